@@ -22,7 +22,9 @@ RULE = ("seeded scenarios: N in 1..12 (thorough ..40) vertices incl. zero-degree
         "per-topology shuffle schedule (uniform/identity/reverse/rotation/adjacent swaps/near-identity), "
         "thorough tier only: three generations at scale per 16000 runs (one custom motif with an orbit of 49..187 vertices and 2e4-3e4 instances: a "
         "column of 1-6 million stubs), fault plans (callback failure at k-th invocation, abort at k-th RNG decision) followed by reuse of "
-        "the generator object; non-trivial = at least one build-callback invocation happened; distinct = "
+        "the generator object, half of the plain re-uses with a row-permuted sequence (in place in the caller's list object or as a new list); "
+        "10% of the fast / network scenarios pass the library's own builder OBJECTS (no log: structural oracle); motif and orbit sizes "
+        "occasionally from the boundary list up to 1025; non-trivial = at least one build-callback invocation (or emitted instance) happened; distinct = "
         "distinct execution digests (scenario operations + every RNG decision + outcome)")
 ASSUMPTIONS = ["joint degree sequences are made handshake-consistent by construction (column sums are multiples "
                "of the motif sizes; orbit columns of one custom motif yield the same motif count)",
@@ -163,11 +165,16 @@ def evaluate(sc, ctx, st, val, rec, reuse, jds, before, types_before):
 
 
 def execute(sc, ctx):
+    sc0 = sc
     state = {"calls": 0}
 
-    def on_result(rnd, st, val, rec, faulted, jds=None, before=None, types_before=None):
+    def on_result(rnd, st, val, rec, faulted, jds=None, before=None, types_before=None, scr=None):
+        sc = scr or sc0
         if st == "construct_raised":
             ctx.violate("C01.raised", f"constructing the generator raised {describe_exc(val)}")
+            return
+        if sc.get("raw_builders"):
+            state["calls"] += gensim.evaluate_raw(sc, ctx, st, val, "C01", faulted, jds, before, types_before)
             return
         state["calls"] += len(rec.log)
         if faulted:
